@@ -235,7 +235,7 @@ fn unit_arg(ctx: &mut Ctx) -> Dd {
                     Dd::new(s * 1.5, 0.0)
                 }
             } else {
-                let d = dd_exp(ctx, 0, 40, false);
+                let d = if ctx.flag() { dd_exp(ctx, 0, 40, false) } else { dd_exp(ctx, 0, 1023, false) };
                 if d.big().abs() > Big::one() {
                     d
                 } else {
@@ -525,11 +525,26 @@ fn c18_inverse(ctx: &mut Ctx) {
                 2 => Dd::new(1.0, 0.0),
                 _ => {
                     ctx.label("domain-error");
-                    let d = dd_exp(ctx, -40, -1, false);
-                    if ctx.flag() {
-                        d
-                    } else {
-                        Dd::new(1.0, -pow2_f64(-ctx.range(55, 200)))
+                    match ctx.below(4) {
+                        0 => dd_exp(ctx, -40, -1, false),
+                        1 => Dd::new(1.0, -pow2_f64(-ctx.range(55, 200))),
+                        2 => {
+                            // negative arguments of any magnitude (x + sqrt(x^2-1) is rounding noise there)
+                            let d = dd_exp(ctx, 0, 200, false);
+                            if d.hi > 0.0 {
+                                d.neg()
+                            } else {
+                                d
+                            }
+                        }
+                        _ => {
+                            let d = dd_exp(ctx, -300, 59, true);
+                            if d.hi > 0.0 {
+                                d.neg()
+                            } else {
+                                d
+                            }
+                        }
                     }
                 }
             }
@@ -556,7 +571,7 @@ fn c18_inverse(ctx: &mut Ctx) {
                     if ctx.flag() {
                         Dd::new(s, 0.0)
                     } else {
-                        let d = dd_exp(ctx, 0, 40, false);
+                        let d = if ctx.flag() { dd_exp(ctx, 0, 40, false) } else { dd_exp(ctx, 0, 1023, false) };
                         if d.big().abs() >= Big::one() {
                             d
                         } else {
